@@ -99,7 +99,7 @@ func genC03(t *rapid.T) any {
 		}
 		sch.valCols = append(sch.valCols, c)
 	}
-	nr := rapid.IntRange(0, 10).Draw(t, "nrows")
+	nr := genRowCount(t, 0, 10, "nrows")
 	rows := []any{}
 	for r := 0; r < nr; r++ {
 		row := map[string]any{}
